@@ -54,7 +54,7 @@ PROPS = {
     "C01": dict(corr=[("rate", {}, ALL, 4500), ("ctor_helpers", {}, ALL, 900)], monitor=True, mon_budget=6000,
                 rule="rate calls generated over kind x parameters x shapes x (mu, sigma) clusters x weak orders x encodings x per-call options; non-trivial = has a tie, is unsorted, has a multi-player team or a per-call option; distinct by hash of the canonical call",
                 partial="agreement of the binary64 evaluation with the closed form to 1e-9 is decided by the monitor (a test), not by the theorem over R"),
-    "C02": dict(corr=[("rate", {}, {"exc", "ids", "shape", "objects", "slots"}, 4500), ("ops", {}, ALL, 900)], monitor=True, mon_budget=4800,
+    "C02": dict(corr=[("rate", {}, {"exc", "mu", "sigma", "ids", "shape", "objects", "slots"}, 4500), ("ops", {}, ALL, 900)], monitor=True, mon_budget=4800,
                 rule="rate calls as for C01 with ids/names distinct per player; non-trivial = tie/unsorted/multi-player/per-call option",
                 partial=""),
     "C03": dict(corr=[("rate", {}, ALL, 3600), ("order", {}, ALL, 1800)], monitor=True, mon_budget=4000,
@@ -158,7 +158,7 @@ _CONCERNS = {
     "C08": ("outcome: impl Arith",),
     # a difference in these observables IS a counterexample to the property (the theorem fixes the value exactly,
     # carrier-polymorphically, so the model's output is what the property demands)
-    "C02": ("shape", "id/name", "moved", "passed object", "fields written", "result holds copies", "result mixes"),
+    "C02": ("mu at", "sigma at", "shape", "id/name", "moved", "passed object", "fields written", "result holds copies", "result mixes"),
     "C13": ("outcome", "rating objects written although", "attribute writes", "model attributes after call", "model __dict__"),
     "C14": ("attribute writes", "model attributes after call", "model __dict__"),
     "C18": ("cmp", "lt", "le", "gt", "ge", "eq", "ne", "ordinal", "outcome"),
